@@ -716,3 +716,23 @@ package expr
 //@   let name = prev(4, ranged(4)[rangeidx(4) + 1].Name)
 //@   let ep = local(e)
 //@   loop 4 step* required.in.metadata: isReqSpec(prev(4, ep.MethodExpr.Payload), name) ==> select(select(mdRequired, ep.Metadata.AttributeExpr.Validation), name)
+
+// ---- a method secured by an API key names the key's attribute (C01, C06) -------------------------
+// "A design is never accepted by validation and then ... turned into uncompilable code": for an API key scheme
+// the generators look the payload attribute up by the tag "security:apikey:<scheme name>"; validation must
+// therefore reject a method whose payload does not carry the tag OF THAT SCHEME. Stated per iteration of the
+// loop over a requirement's schemes: an API key scheme whose tag the payload lacks (hasTag, abstracted as a
+// function of attribute and tag) leaves one more error in the accumulator.
+//@ smt (declare-fun hasTagSpec (Int String) Bool)
+//@ func (*MethodExpr).Validate
+//@   params m
+//@   property C01 C06
+//@   locals verr:*eval.ValidationErrors requirements:[]*expr.SecurityExpr hasBasicAuth:bool hasAPIKey:bool hasJWT:bool hasOAuth:bool r:*expr.SecurityExpr s:*expr.SchemeExpr scope:string found:bool s#2:*expr.SchemeExpr se:*expr.ScopeExpr i:int e:*expr.ErrorExpr err:error verrs:*eval.ValidationErrors j:int e2:*expr.ErrorExpr found#2:bool
+//@   opt loopframes none
+//@   opt inline none
+//@   unknown_calls_preserve fieldsOf(eval.ValidationErrors), fieldsOf(SchemeExpr), elems(*SchemeExpr), MethodExpr.Payload
+//@   callspec hasTag params p tag
+//@       ensures result == hasTagSpec(p, tag)
+//@       modifies nothing
+//@   let sch = prev(2, ranged(2)[rangeidx(2) + 1])
+//@   loop 2 step* apikey.attribute.required: prev(2, sch.Kind) == APIKeyKind && !hasTagSpec(prev(2, m.Payload), "security:apikey:" + prev(2, sch.SchemeName)) ==> len(verr.Errors) > prev(2, len(verr.Errors))
